@@ -6,6 +6,7 @@ import (
 	"strings"
 
 	"github.com/ipfs/go-cid"
+	"github.com/libp2p/go-libp2p/core/crypto"
 
 	"github.com/ucan-wg/go-ucan/did"
 	"github.com/ucan-wg/go-ucan/pkg/command"
@@ -39,7 +40,7 @@ func allPairs(_ string, n int) [][2]int {
 }
 
 func c15ConcSub() *engine.Sub {
-	return engine.ConcurrentSub("concurrent-calls", "Covers / Parse / Join from two logical threads",
+	return engine.ConcurrentSubSweep("concurrent-calls", "Covers / Parse / Join from two logical threads",
 		func(tier string) []engine.Call {
 			var cs []engine.Call
 			cmds := []string{"/", "/a", "/a/b", "/a/b/c", "/ab", "/ab/c", "/b", "/a/c", "/σ", "/ς", "/" + strings.Repeat("x", 40), "/" + strings.Repeat("x", 40) + "/y"}
@@ -73,6 +74,17 @@ func c15ConcSub() *engine.Sub {
 				for j := i % step; j < n; j += step {
 					r = append(r, [2]int{i, j})
 				}
+			}
+			return r
+		},
+		func(tier string, n int) []int {
+			step := 5
+			if tier == "thorough" {
+				step = 1
+			}
+			var r []int
+			for i := 0; i < n; i += step {
+				r = append(r, i)
 			}
 			return r
 		}, 2, 3)
@@ -109,14 +121,18 @@ func c13ConcSub() *engine.Sub {
 			return cs
 		},
 		func(tier string, n int) [][2]int {
+			// calls come in blocks of 14 per pattern (7 strings x {shared policy, private policy}): every pair
+			// inside a block (the same Policy value on two different strings), plus a stride across blocks
 			var r [][2]int
 			step := 9
 			if tier == "thorough" {
 				step = 3
 			}
 			for i := 0; i < n; i++ {
-				for j := i % step; j < n; j += step {
-					r = append(r, [2]int{i, j})
+				for j := 0; j < n; j++ {
+					if i/14 == j/14 || j%step == i%step {
+						r = append(r, [2]int{i, j})
+					}
 				}
 			}
 			return r
@@ -232,7 +248,7 @@ func c11ConcSub() *engine.Sub {
 }
 
 func c16ConcSub() *engine.Sub {
-	return engine.ConcurrentSub("concurrent-did-conversions", "did.Parse / PubKey / ToPubKey / FromPubKey from two logical threads",
+	return engine.ConcurrentSubSweep("concurrent-did-conversions", "did.Parse / PubKey / ToPubKey / FromPubKey from two logical threads",
 		func(tier string) []engine.Call {
 			var cs []engine.Call
 			for _, k := range fixtures.All() {
@@ -267,6 +283,32 @@ func c16ConcSub() *engine.Sub {
 					return "ok:" + d.String()
 				}})
 			}
+			// 300 further principals (synthetic Ed25519 keys): enough distinct identifiers to churn any table
+			for i := 0; i < 300; i++ {
+				raw := make([]byte, 32)
+				for j := range raw {
+					raw[j] = byte(i*131 + j*7 + i>>3)
+				}
+				pk, err := crypto.UnmarshalEd25519PublicKey(raw)
+				if err != nil {
+					panic(err)
+				}
+				s := didKeyString(uvarint(0xed), raw)
+				cs = append(cs, engine.Call{Name: fmt.Sprintf("Parse+PubKey(synthetic#%d)", i), Want: "ok:" + s, Run: func() string {
+					d, err := did.Parse(s)
+					if err != nil {
+						return "parse-error"
+					}
+					k2, err := d.PubKey()
+					if err != nil {
+						return "pubkey-error"
+					}
+					if !k2.Equals(pk) {
+						return "other-key"
+					}
+					return "ok:" + d.String()
+				}})
+			}
 			for _, bad := range []string{"did:key:z6Mk", "did:web:x", "did:key:zQ3shokFTS3brHcDQrn82RUDfCZESWL1ZdCEJwekUDPQiYBme"} {
 				bad := bad
 				cs = append(cs, engine.Call{Name: "Parse(" + bad[:min(len(bad), 14)] + ")", Run: func() string {
@@ -279,7 +321,30 @@ func c16ConcSub() *engine.Sub {
 				}})
 			}
 			return cs
-		}, allPairs, 2, 3)
+		},
+		func(tier string, n int) [][2]int {
+			// all pairs among the fixture calls; the synthetic principals only meet the SWEEP
+			var r [][2]int
+			for i := 0; i < n; i++ {
+				for j := 0; j < n; j++ {
+					if (i < 32 || i >= 332) && (j < 32 || j >= 332) {
+						r = append(r, [2]int{i, j})
+					}
+				}
+			}
+			return r
+		},
+		func(tier string, n int) []int {
+			step := 25
+			if tier == "thorough" {
+				step = 4
+			}
+			var r []int
+			for i := 0; i < n; i += step {
+				r = append(r, i)
+			}
+			return r
+		}, 2, 3)
 }
 
 // tokensForConc returns sealed artefacts of several kinds / algorithms.
